@@ -30,6 +30,15 @@ theorem status_spec (h : NHeaders) :
         simp [runLadder, evalOr, evalCond, hget, specStatus, Gen.C10Notify.notifyLadder, kNT, kNTS, kSID, h1, h2] <;>
         simp_all [ntEvent, ntsPropchange]
 
+/-- the coercer kinds of the data types the correspondence runs use, as extracted from const.py: the
+    integer types go through `int`, `string` through `str`, `boolean` through `s.lower() in ["1","true","yes"]`;
+    date/time types are not modelled (`other`) -/
+theorem type_table_pinned :
+    inKindOf ['u','i','1'] = .int ∧ inKindOf ['u','i','2'] = .int ∧ inKindOf ['u','i','4'] = .int ∧ inKindOf ['i','4'] = .int
+    ∧ inKindOf ['s','t','r','i','n','g'] = .str
+    ∧ inKindOf ['b','o','o','l','e','a','n'] = .lowerIn [['1'], ['t','r','u','e'], ['y','e','s']]
+    ∧ inKindOf ['d','a','t','e','T','i','m','e'] = .other ∧ inKindOf ['t','i','m','e'] = .other := by decide
+
 end Upnp.C10
 
 namespace Upnp.C10
